@@ -7,7 +7,6 @@ extra = dict(a.split("=", 1) for a in sys.argv[5:])
 D.build([fl])
 findings = D.load_findings()
 opts = {"faults": faults}; opts.update(extra)
-if opts.get("knob.leakcheck"): D.SLOW_UNWIND[0] = True
 if "avoid" not in opts:
     av = D.avoid_tokens(findings, "NONE")
     if av: opts["avoid"] = ",".join(sorted(av))
@@ -20,9 +19,10 @@ def loop(k):
             s = seeds.pop()
         cmd = "seed %s %d %s" % (profile, s, " ".join("%s=%s" % kv for kv in sorted(opts.items())))
         res, crash = w.run(cmd, 120)
-        if res and res.get("leak") and "leak of" not in res["leak"]:
-            txt = D.read_san_logs(w.logprefix, w.proc.pid)
-            if txt: res["leak"] = txt
+        if res and res.get("leak"):
+            D.read_san_logs(w.logprefix, w.proc.pid)
+            r2, c2, _ = D.replay_once(fl, D.emit_plan(fl, profile, s, opts), tag="leakstack", slow=True, timeout=600)
+            if r2 is not None and r2.get("leak"): res["leak"] = r2["leak"]
         vs = []
         if crash is not None or (res and (res.get("violations") or res.get("leak") or res.get("harness_error"))):
             text = D.emit_plan(fl, profile, s, opts)
